@@ -174,16 +174,16 @@ func H_C07_BeaconRecord() {
 	rt.Assert("C07+C09.new-record-exact", rt.And(found, nt == beacontypes.BeaconTimestamp{TimestampId: newID, SubmitTime: msg.SubmitTime, Hash: msg.Hash}))
 	b, _ := be.K.GetBeacon(be.Ctx, pre.ID)
 	all := be.K.GetAllBeaconTimestamps(be.Ctx, pre.ID)
-	rt.Assert("C08.num-matches-store", b.NumInState == uint64(len(all)))
-	rt.Assert("C08.num=min(n+1,limit)", b.NumInState == rt.IteU64(pruned, n, n+1))
-	rt.Assert("C08.within-limit", b.NumInState <= pre.L)
-	rt.Assert("C08.last=new", b.LastTimestampId == newID)
+	rt.Assert("INV.num-matches-store", b.NumInState == uint64(len(all)))
+	rt.Assert("INV.num=min(n+1,limit)", b.NumInState == rt.IteU64(pruned, n, n+1))
+	rt.Assert("INV.within-limit", b.NumInState <= pre.L)
+	rt.Assert("INV.last=new", b.LastTimestampId == newID)
 	if len(all) > 0 {
-		rt.Assert("C08.first=first-in-store", b.FirstIdInState == all[0].TimestampId)
-		rt.Assert("C08.last-in-store=new", all[len(all)-1].TimestampId == newID)
+		rt.Assert("INV.first=first-in-store", b.FirstIdInState == all[0].TimestampId)
+		rt.Assert("INV.last-in-store=new", all[len(all)-1].TimestampId == newID)
 	}
 	for i := 1; i < len(all); i++ {
-		rt.Assert("C08.in-state-contiguous", all[i].TimestampId == all[i-1].TimestampId+1)
+		rt.Assert("INV.in-state-contiguous", all[i].TimestampId == all[i-1].TimestampId+1)
 	}
 	rt.Assert("C09.identity-immutable", beaconIdentityUnchanged(b, pre.B))
 	l, fl := be.K.GetBeaconStorageLimit(be.Ctx, pre.ID)
